@@ -99,7 +99,7 @@ def make_case(rng, malformed=False):
         if kind in ('split_k1', 'split_k2'):
             n = k1 if kind == 'split_k1' else k2
             free = [l for l in LABELS6 if l not in used]
-            if n < 1 or not free or (nO > 1 and rng.random() < 0.8):
+            if n < 1 or not free or (nO > 1 and rng.random() < 0.3):
                 continue
             label = rng.choice(free)
             if rng.random() < 0.7:
@@ -436,14 +436,18 @@ def oracle_seq(c, o):
     # shapes mutually consistent
     if f['traj'] is None:
         return f'trajectory shapes {f["traj_shapes"]} cannot be broadcast to the data shape {sh}'
+    shape_msg = None     # a header field of the wrong shape that is not needed below does not end the check: the pairing is still examined
     for r, (s, _) in enumerate(f['info']):
         if s != [sh[0], sh[2], sh[3]]:
             name = INFO_NAMES[r]
-            return f'acq_info {name} has shape {s}, data has (other,k2,k1) = {[sh[0], sh[2], sh[3]]}'
+            msg = f'acq_info {name} has shape {s}, data has (other,k2,k1) = {[sh[0], sh[2], sh[3]]}'
+            if r in (0, 7, 8):
+                return msg
+            shape_msg = shape_msg or msg
     if f['nsamples'] != [sh[4]]:
         return f'number_of_samples {f["nsamples"]} but k0 = {sh[4]}'
     if o['opaque']:
-        return None
+        return shape_msg
     if not f['data_is_id']:
         return 'data values are not those of single source readouts any more (mixed samples)'
     # pairing: every output readout carries data, header and trajectory of the same source readout
@@ -481,7 +485,7 @@ def oracle_seq(c, o):
                     if not np.array_equal(ft[m][o_, a, b], want):
                         return (f'position ({o_},{a},{b}): trajectory component {m} is {ft[m][o_, a, b].tolist()}, readout {acq} had '
                                 f'{want.tolist()} (window start {start})')
-    return None
+    return shape_msg
 
 
 def _collapsed_then_reorganised(c):
